@@ -114,6 +114,8 @@ def run(ctx, rep):
                 rep.ob("include-atoms", nm, pat in sk.replace("(local:", "(").replace("local:info.section_attributes.flags.", "") or pat.replace("local:", "") in sk.replace("local:", ""),
                        f"LOAD arm: {sk[:220]}", b["file"], arm["l"])
             rep.ob("include-atoms", "conjunction", sk.count("&&") == 2 and "||" not in sk, "the three atoms are joined by && only", b["file"], arm["l"])
+    # ---- header fields are filled from the matching layout quantities ------------------------------------------------
+    header_fields(ctx, rep, F, P)
     rep.assume("addresses, offsets, sizes: runtime quantities, not decided")
 
 
@@ -133,3 +135,71 @@ def sec_name(kind):
         return repr(inner)[:30]
     except Exception:
         return "?"
+
+
+HEADER_SPEC = {
+    "libwild::elf_writer::write_program_headers": {
+        "p_type": ["segment_type"], "p_flags": ["segment_flags"], "p_offset": ["file_offset"], "p_vaddr": ["mem_offset"], "p_paddr": ["mem_offset"],
+        "p_filesz": ["file_size"], "p_memsz": ["mem_size"], "p_align": ["alignment"],
+    },
+    "libwild::elf_writer::populate_file_header": {
+        "e_type": ["1", "2", "3"], "e_machine": ["arch_identifier"], "e_version": ["1"], "e_entry": ["entry_symbol_address"], "e_phoff": ["64"],
+        "e_shoff": ["Add(64, program_headers_size("], "e_ehsize": ["64"], "e_phentsize": ["56"], "e_phnum": ["active_segment_ids"], "e_shentsize": ["64"],
+        "e_shnum": ["num_output_sections_with_content"], "e_shstrndx": ["SHSTRTAB"], "e_flags": ["eflags"],
+    },
+    "libwild::elf_writer::write_section_headers": {
+        "sh_name": ["name_offset"], "sh_type": [".ty"], "sh_flags": ["section_flags("], "sh_addr": ["mem_offset"], "sh_offset": ["file_offset"],
+        "sh_size": ["mem_size"], "sh_link": ["output_index_of_section"], "sh_info": ["compute_info_values"], "sh_addralign": ["alignment"], "sh_entsize": ["entsize"],
+    },
+}
+# what must NOT feed a field (the sibling quantity it is most easily confused with)
+HEADER_FORBID = {"p_offset": ["mem_offset", "file_size"], "p_vaddr": ["file_offset"], "p_paddr": ["file_offset"], "p_filesz": ["mem_size", "file_offset"], "p_memsz": ["file_size"],
+                 "sh_addr": ["file_offset"], "sh_offset": ["mem_offset"], "sh_size": ["file_size", "alignment"], "sh_addralign": ["entsize", "mem_size"], "sh_entsize": ["alignment"],
+                 "e_phentsize": ["64"], "e_shentsize": ["56"], "e_ehsize": ["56"], "e_phnum": ["num_output_sections"], "e_shnum": ["active_segment_ids"]}
+
+
+def header_fields(ctx, rep, F, P):
+    """Every field of the ELF file header, the program headers and the section headers is stored from the layout quantity of the same
+    meaning (p_offset <- file_offset, p_vaddr/p_paddr <- mem_offset, p_filesz <- file_size, p_memsz <- mem_size, ...; gABI sizes 64/56/64)."""
+    from mir import alternatives, callee_key, expr_tree, render, simplify
+    rep.rule("header-fields", "each ELF header field is set exactly once per header from the layout quantity of the same meaning; entry sizes are the gABI's (Ehdr 64, Phdr 56, Shdr 64)")
+    for fn, spec in HEADER_SPEC.items():
+        b = F.body(fn)
+        if b is None:
+            rep.lost("header-fields", fn)
+            continue
+        flow = P.flow(b)
+        seen = {}
+        for bi, t in flow.calls():
+            k = callee_key(t["f"]) or ""
+            if not (k.startswith("object::U") and k.endswith("::set")) or len(t["args"]) < 3:
+                continue
+            field = render(expr_tree(P, b, t["args"][0], depth=4, expand_params=0)).split(".")[-1]
+            with alternatives():
+                val = render(simplify(expr_tree(P, b, t["args"][2], depth=7, expand_params=0)))
+            seen.setdefault(field, []).append((val, t["l"]))
+        short = fn.split("::")[-1]
+        for field, wants in spec.items():
+            got = seen.get(field, [])
+            if len(got) != 1:
+                rep.ob("header-fields", f"{short}:{field}:once", False, f"{field} is set {len(got)} time(s) in {short}", b.file, b.line)
+                continue
+            val, line = got[0]
+            ok = all(w in val for w in wants) if field not in ("e_type",) else all(w in val for w in wants)
+            bad = [w for w in HEADER_FORBID.get(field, []) if w in val and not any(w in x and x != w for x in wants)]
+            rep.ob("header-fields", f"{short}:{field}", ok and not bad, f"{field} <- {val[:140]}" + ("" if ok else f" (expected a value built from {wants})") + (f" (must not be built from {bad})" if bad else ""), b.file, line)
+        extra = sorted(set(seen) - set(spec))
+        rep.ob("header-fields", f"{short}:no-unknown-fields", not extra, f"fields set that the table does not know: {extra}", b.file, b.line)
+    # e_ident constants are plain field stores
+    ph = F.body("libwild::elf_writer::populate_file_header")
+    if ph is not None:
+        want = {"class": 2, "data": 1, "version": 1}
+        got = {}
+        for blk in ph.blocks:
+            for st in blk["s"]:
+                if st["k"] == "assign" and st["p"][1] and st["rv"]["k"] == "use" and st["rv"]["a"][0] == "k":
+                    fld = [x for x in st["p"][1] if x.startswith(".")]
+                    if ".e_ident" in fld and len(fld) >= 2:
+                        got[fld[-1][1:]] = st["rv"]["a"][1].get("val")
+        for k, v in want.items():
+            rep.ob("header-fields", f"e_ident.{k}", got.get(k) == v, f"e_ident.{k} = {got.get(k)} (ELFCLASS64=2, ELFDATA2LSB=1, EV_CURRENT=1)", ph.file, ph.line)
